@@ -159,6 +159,16 @@ def cases(tier, seed):
     return out
 
 
+def safe_check(case):
+    """check(case); a comparison that cannot even be carried out (the output holds a value of another kind than the reference cell, so
+    that Beancount's value types fail while comparing) is a mismatch, not a harness error"""
+    try:
+        return check(case)
+    except Exception as e:  # noqa
+        return ('each cell = units of that currency in the value; identity cells unchanged (the output could not be compared with the reference)',
+                {'columns': [t.__name__ for t in case[0]], 'rows': repr(case[1])[:300], 'fmt': case[2]}, f'{type(e).__name__}: {e}', None)
+
+
 def run_query_per_ledger(res):
     """query.run_query(..., numberify=True) numberifies with the display precision of the ledger it is given, whichever ledgers
     were queried before in the process"""
@@ -188,7 +198,7 @@ def run(tier, seed):
                  'amount-like type (exhaustive over the pools incl. NULL, zero amounts, empty inventories, several lots of one currency), with and '
                  'without a display formatter; seeded random tables of 1-4 columns x 0-5 rows; distinct = distinct (column types, rows, formatter)')
     cs = cases(tier, seed)
-    for case, bad in zip(cs, pmap(check, cs, chunk=32)):
+    for case, bad in zip(cs, pmap(safe_check, cs, chunk=32)):
         res.case(repr(case), {'columns': [t.__name__ for t in case[0]], 'rows': len(case[1]), 'formatter': case[2], 'same_names': len(case) > 3})
         if bad:
             res.violation('h17:' + bad[0][:40] + ':' + ','.join(bad[1]['columns']), bad[0], bad[1], bad[2], bad[3])
